@@ -161,7 +161,7 @@ def account(res, pid, scn, steps):
     if stable:
         res.count("reached_stable")
     if scn.get("float_artefact"):
-        res.count("float_artefact_truncated")
+        res.count("float_artefact_followed")
     res.count("len<=%d" % (10 * ((len(steps) + 9) // 10)))
     if (pid == "C16" and rebalanced) or (pid == "C17" and fault):
         res.nontrivial(scn["events"])
@@ -279,6 +279,8 @@ def actions(world, faults_only=False):
             acts.append(["stop"])
         if e["cerr"]:
             acts += [["consumerErr %d %s" % (e["cerr"][0], k)] for k in ("rebalanceInProgress", "illegalGeneration", "nonKafka")]
+        if e["quirk"]:
+            acts += [["consumerQuirk %d %s" % (e["quirk"][0], q)] for q in ("raises", "fails")]
     return acts
 
 
